@@ -66,6 +66,10 @@ class Violation(Exception):
     pass
 
 
+def _isinf(x):
+    return isinstance(x, (builtins.float, _np.floating)) and x in (math.inf, -math.inf)
+
+
 def _flat(x):
     if isinstance(x, _np.ndarray):
         return list(x.ravel())
@@ -258,6 +262,10 @@ class H:
             conj = []
             fv = _np.ones(core.K_SAMPLES, dtype=bool)
             for i, (x, y) in enumerate(pairs):
+                if core._is_nan(x) or core._is_nan(y) or _isinf(x) or _isinf(y):
+                    conj.append((str(i), z3.BoolVal(False)))      # a concrete NaN / inf equals nothing
+                    fv = None if fv is None else (fv & False)
+                    continue
                 tx, ty = lift(x), lift(y)
                 if tol is None:
                     conj.append((str(i), tx == ty))
@@ -281,6 +289,8 @@ class H:
     def _cmp(self, a, b, op, strict_op):
         pairs = self._pairs(a, b)
         if self.sym:
+            if any(core._is_nan(x) or core._is_nan(y) for x, y in pairs):
+                return P.s(z3.BoolVal(False), 'nan', _np.zeros(core.K_SAMPLES, dtype=bool))
             fv = _np.ones(core.K_SAMPLES, dtype=bool)
             for x, y in pairs:
                 d = core._fop(lambda u, w: op(u, w), x, y)
